@@ -41,12 +41,12 @@ CHECKS = {
                      "varints, out-of-spec element type in an EMPTY container (unobservable)"],
     ),
     "C04": dict(
-        engine="vrt", level="model_checking", quick_cap=240, thorough_cap=3600,
+        engine="vrt", parts=["vrt", "gen:tsem"], level="model_checking", quick_cap=240, thorough_cap=3600,
         rule=("Runtime level: the C01 value spaces (a)(b)(c) (shapes to depth 2 [3 thorough], scalar sweeps in 5 contexts, all "
               "field-id neighbour pairs and nested id patterns) x {binary, binary-LE, compact, unchecked} x 3 buffer kinds x "
               "bin/string APIs x {primitive calls, *_field helper calls}; the writer and a separate TLengthProtocol instance are "
               "driven in lockstep and the running sums compared after EVERY op; plus message envelopes (6 name lengths x 4 types x "
-              "all i32 boundary seqids). Generated level: see C02 corpus (size() vs encoded length) when built. distinct_nontrivial "
+              "all i32 boundary seqids). Generated level: every (type, value) case of the C02 corpus x {keep off,on}: T::size(&mut p) vs the number of bytes T::encode writes on all 4 protocols (unchecked: into a window of exactly size() bytes with painted slack). distinct_nontrivial "
               "as in C01."),
         assumptions=["dev profile with overflow checks", "states/transitions as in C01 are not re-reported here: the evidence "
                      "counts lockstep ops compared (counters.ops)"],
@@ -110,6 +110,35 @@ CHECKS = {
         assumptions=["hand-written single-thread executor with a no-op waker; the stream wakes itself when it answers Pending",
                      "inputs on which the sync decoder panics belong to C09 and are skipped (none after the fixes)"],
     ),
+    "C02": dict(
+        engine="gen:tsem", level="exploration", quick_cap=280, thorough_cap=3600,
+        rule=("Programs: the semantic Thrift corpus of lib/corpus.py (7 documents, ~75 declared and synthesised types: scalars in "
+              "every requiredness, field-id boundary sets ascending and descending, containers of every base type incl. depth 3, "
+              "enums/structs/unions/exceptions/typedefs in field, list, set, map-key and map-value position, recursive and mutually "
+              "recursive types, every kind of default literal, pilota.rust_type / rust_wrapper_arc annotations, service "
+              "argument/result/exception types) compiled by the real pilota-build in a child process per document under "
+              "{keep_unknown_fields off, on}. Inputs per type: the minimal value, each field alone over its alphabet (4-5 boundary "
+              "members per scalar, containers empty/1/2/15/16 elements, every enum member and unknown numbers, every union variant), "
+              "all fields present (two variants), every adjacent pair. Each value is encoded by the reference encoder, decoded by "
+              "the generated decode (sync on 4 protocols incl. unchecked at a guard page, async on 3), re-encoded by the generated "
+              "encode on all 4 protocols and decoded by the reference decoder; oracle: equal to the input with absent "
+              "default-bearing fields filled from the IDL (defaults computed by the corpus generator), sets/maps compared as "
+              "multisets, all bytes consumed. distinct_nontrivial = (type, value) cases."),
+        assumptions=["values of generated types are only obtained by decoding and only inspected by encoding (no reflection)",
+                     "modules whose generated code does not compile are dropped from this check and reported by C14 (listed in "
+                     "engine_info.dropped_modules)"],
+    ),
+    "C20": dict(
+        engine="gen:tsem", level="exploration", quick_cap=280, thorough_cap=3600,
+        rule=("Every generated struct of the semantic corpus (all requiredness kinds x 30 default literal kinds: ints of every "
+              "width, bools from true/false and from 0/1, doubles from ints and decimals, strings, binary, enum members by name and "
+              "number, constants by reference, enum-to-int, empty and non-empty list/set/map literals, [] for a map, typedef'd "
+              "targets, nested struct literals) x {keep off,on}: encode(T::default()) on 4 protocols, decoded by the reference "
+              "decoder, must equal the default value computed from the IDL by the corpus generator (present for every "
+              "default-bearing field, empty value for required fields without default, absent otherwise); must equal "
+              "decode(empty struct) re-encoded whenever that decode succeeds. distinct_nontrivial = structs checked."),
+        assumptions=["expected defaults come from lib/corpus.py, not from pilota"],
+    ),
 }
 
 
@@ -150,6 +179,7 @@ def write_manifest():
             na.append({"property_id": pid, "reason": NOT_APPLICABLE.get(pid, "check under construction (not yet registered)")})
     kinds = {
         "vcore": "shared library: dynamic Thrift values, bounded enumerators, reference codecs written from the specs, deviation-bounded explorer, counting allocator, shard/evidence plumbing",
+        "gen:tsem": "generated-code engine: lib/corpus.py writes the semantic Thrift corpus + its schema, engines/vgen runs the real pilota-build per (document, configuration) in a child process, lib/gen.py scans the output for generated Message impls and emits a harness crate that include!s them; engines/vgenrun/src is the harness (schema-directed value enumeration, reference codec comparison)",
         "vrt": "runtime-level engine: value interpreter that drives pilota's real protocol objects exhaustively over the enumerated spaces (sync and scripted-async readers)",
     }
     m = {
@@ -163,7 +193,7 @@ def write_manifest():
             "add_only": True,
         },
         "engines": [{"name": "vcore", "path": "engines/vcore", "serves_properties": sorted(CHECKS), "kind_free_text": kinds["vcore"]}] +
-                   [{"name": e, "path": "engines/" + e, "serves_properties": ps, "kind_free_text": kinds.get(e, "")} for e, ps in engines.items()],
+                   [{"name": e, "path": ("engines/vgenrun" if e.startswith("gen:") else "engines/" + e), "serves_properties": ps, "kind_free_text": kinds.get(e, "")} for e, ps in engines.items()],
         "checks": checks,
         "not_applicable": na,
         "notes": "Quick tier of every check runs in well under a minute after ./verif setup; exit 2 = machinery error (never a verdict). known_findings.json lists recorded defects; fixed entries suppress nothing.",
@@ -177,17 +207,41 @@ HOOK_COMMITS = []
 
 
 def setup():
-    for pkg in ["vrt"]:
+    for pkg in ["vrt", "vgen"]:
         vlib.build(pkg)
+    import gen
+    r = gen.build_thrift_sem("quick")
+    print("tsem harness:", json.dumps(r["info"]))
     print("setup ok")
     return 0
 
 
 def sig_listed(known, sig):
     for f in known.get("findings", []):
-        if f.get("signature") == sig and f.get("status", "open") == "open":
+        if f.get("status", "open") != "open":
+            continue
+        if f.get("signature") == sig:
             return f
+        # a finding may name a construct tag computed by the harness from the IDL (e.g.
+        # "C02[arg-type+retention]|"): every failure carrying that tag is the same recorded defect
+        for pre in ([f["signature_prefix"]] if f.get("signature_prefix") else []) + f.get("signature_prefixes", []):
+            if sig.startswith(pre):
+                return f
     return None
+
+
+DEATH_TAGS = {0: "", 1: "[arg-type+retention]"}
+
+
+def engine_bin(engine, tier):
+    """Returns (binary path, build seconds, info dict)."""
+    t0 = time.time()
+    if engine.startswith("gen:"):
+        import gen
+        r = {"gen:tsem": gen.build_thrift_sem}[engine](tier)
+        return r["bin"], time.time() - t0, r["info"]
+    b, secs = vlib.build(engine)
+    return b, secs, {}
 
 
 def run_check(pid, tier, seed):
@@ -195,21 +249,33 @@ def run_check(pid, tier, seed):
         die("unknown check " + pid)
     c = CHECKS[pid]
     t0 = time.time()
-    binpath, build_s = vlib.build(c["engine"])
-    wdir = os.path.join(WORK, pid)
-    nshards = c.get("shards", min(16, vlib.NCPU))
-    cap = c["quick_cap"] if tier == "quick" else c["thorough_cap"]
-    results, deaths, run_s, capped = vlib.run_shards(binpath, pid, tier, nshards, c.get("args", []), wdir, seed, cap)
-    m = vlib.merge(results)
-    m["caps"] += capped
-    # worker deaths are observations
-    for d in deaths:
-        sig = "%s|worker-death|rc=%s" % (pid, d["rc"])
-        g = m["failures"].setdefault(sig, {"sig": sig, "count": 0, "first_index": d["index"],
-                                           "case": {"index": d["index"], "shard": d["shard"]},
-                                           "detail": d["log_tail"][-300:]})
-        g["count"] += 1
-    return verdict(pid, tier, seed, c, m, time.time() - t0, build_s)
+    parts = c.get("parts", [c["engine"]])
+    merged = None
+    build_s = 0.0
+    infos = {}
+    for i, engine in enumerate(parts):
+        binpath, bs, info = engine_bin(engine, tier)
+        build_s += bs
+        if info:
+            infos[engine] = info
+        wdir = os.path.join(WORK, pid, "p%d" % i)
+        nshards = c.get("shards", min(16, vlib.NCPU))
+        cap = c["quick_cap"] if tier == "quick" else c["thorough_cap"]
+        results, deaths, run_s, capped = vlib.run_shards(binpath, pid, tier, nshards, c.get("args", []), wdir, seed, cap)
+        m = vlib.merge(results)
+        m["caps"] += capped
+        # worker deaths are observations
+        for d in deaths:
+            sig = "%s%s|worker-death|rc=%s" % (pid, DEATH_TAGS.get(d.get("tag", 0), ""), d["rc"])
+            g = m["failures"].setdefault(sig, {"sig": sig, "count": 0, "first_index": d["index"],
+                                               "case": {"index": d["index"], "shard": d["shard"], "part": i},
+                                               "detail": d["log_tail"][-300:]})
+            g["count"] += 1
+        for f in m["failures"].values():
+            f["part"] = i
+        merged = m if merged is None else vlib.merge_two(merged, m)
+    merged["engine_info"] = infos
+    return verdict(pid, tier, seed, c, merged, time.time() - t0, build_s)
 
 
 def verdict(pid, tier, seed, c, m, wall, build_s):
@@ -227,14 +293,20 @@ def verdict(pid, tier, seed, c, m, wall, build_s):
             known_hits.append((sig, k, f))
         else:
             violations.append((sig, f))
+    grouped = {}
     for sig, k, f in known_hits:
-        print("KNOWN-FINDING: property=%s %s [%s; %d failing executions]" % (pid, k.get("description", ""), sig, f["count"]))
+        g = grouped.setdefault(id(k), [k, 0, 0])
+        g[1] += 1
+        g[2] += f["count"]
+    for k, nsig, nexec in grouped.values():
+        print("KNOWN-FINDING: property=%s %s [%s; %d signatures, %d failing executions]"
+              % (pid, k.get("description", ""), k.get("signature") or k.get("signature_prefix") or ",".join(k.get("signature_prefixes", [])), nsig, nexec))
     if violations:
         os.makedirs(rdir, exist_ok=True)
     for sig, f in violations:
         name = "".join(ch if ch.isalnum() else "_" for ch in sig)[:120] + ".json"
         path = os.path.join(rdir, name)
-        json.dump({"property": pid, "sig": sig, "engine": c["engine"], "tier": tier, "count": f["count"],
+        json.dump({"property": pid, "sig": sig, "engine": c.get("parts", [c["engine"]])[f.get("part", 0)], "tier": tier, "count": f["count"],
                    "first_index": f["first_index"], "detail": f["detail"], "case": f["case"]}, open(path, "w"), indent=1)
         print("VIOLATION property=%s replay=%s" % (pid, os.path.relpath(path, ROOT)))
         print("  signature: %s  (%d failing executions)  %s" % (sig, f["count"], str(f["detail"])[:200]))
@@ -252,6 +324,7 @@ def verdict(pid, tier, seed, c, m, wall, build_s):
         "notes": m["notes"],
         "failing_signatures": {s: m["failures"][s]["count"] for s in sorted(m["failures"])},
         "known_findings_seen": [s for s, _, _ in known_hits],
+        "engine_info": m.get("engine_info", {}),
     }
     if c["level"] == "model_checking":
         cov["states"] = len(m["states"])
@@ -275,7 +348,8 @@ def replay(path):
     r = json.load(open(path))
     pid = r["property"]
     c = CHECKS[pid]
-    binpath, _ = vlib.build(c["engine"])
+    engine = r.get("engine", c["engine"])
+    binpath, _, _ = engine_bin(engine, r.get("tier", "quick"))
     if "worker-death" in r.get("sig", "") and "index" in r.get("case", {}):
         # a case that killed the worker: re-run exactly that case index in a child process
         out = os.path.join(WORK, "replay_only.json")
